@@ -3,7 +3,7 @@ from vf.s1common import s1_jobs, sig_of, graph_features
 from vf.oracles.hier import build_scfg, orig_map, STAGES, flatten, regions
 
 
-def make(oracle, stages=(1, 2, 3), payloads=("basic",), kind="structure", nontrivial=None):
+def make(oracle, stages=(1, 2, 3), payloads=("basic",), kind="structure", nontrivial=None, quick_n5_max_edges=None):
     """oracle(desc, orig_blocks, g, k, payload) -> list of error tuples."""
 
     def check(desc):
@@ -55,7 +55,7 @@ def make(oracle, stages=(1, 2, 3), payloads=("basic",), kind="structure", nontri
                 ctx.fail(f["kind"], f["signature"], desc, f["detail"])
 
     def jobs(tier):
-        return s1_jobs(tier, harness)
+        return s1_jobs(tier, harness, quick_n5_max_edges=quick_n5_max_edges)
 
     def replay(desc):
         return [f for f in check(desc) if f["kind"] != "skip"]
